@@ -452,9 +452,15 @@ def seq_len(s):
 
 def seq_get(s, i) -> V:
     if isinstance(s, VSeq):
-        return sel(s.elem, i)
+        r = sel(s.elem, i)
+        if s.skind == 'str' and isinstance(r, VInt):
+            r.char = True       # an element of a str is a one-character str (identified with its code point)
+        return r
     if isinstance(s, VView):
-        return s.getter(i)
+        r = s.getter(i)
+        if s.skind == 'str' and isinstance(r, VInt):
+            r.char = True
+        return r
     if isinstance(s, VTuple):
         if z3.is_int_value(i):
             return s.items[i.as_long()]
